@@ -50,6 +50,47 @@ type drawShadow struct {
 	allowed   map[[2]int]map[int]bool // block ids in which the cell may receive payload
 }
 
+// lockGuardSuffix probes the tree under test once per process: "+lg" when a wide rune stored in the column left of a
+// locked cell is no longer written as a two-column glyph (fixes/C13-wide-left-of-locked.patch), "" for the pinned
+// drawCell.  The suffix is appended to the entry name on generated `draw` / `modes` case lines so that the Lean driver
+// runs the matching model variant (DrawCfg.guardLocked); the oracle never looks at it.
+var lockGuardVariant *string
+
+func lockGuardSuffix() string {
+	if lockGuardVariant != nil {
+		return *lockGuardVariant
+	}
+	s := ""
+	if ti := drawTi("xterm-256color", false); ti != nil {
+		os.Setenv("LC_ALL", "en_US.UTF-8")
+		tty := NewFakeTty(3, 1)
+		if scr, err := tcell.NewTerminfoScreenFromTtyTerminfo(tty, ti); err == nil && scr.Init() == nil {
+			scr.SetContent(1, 0, 'b', nil, tcell.StyleDefault)
+			scr.Show()
+			scr.LockRegion(1, 0, 1, 1, true)
+			scr.SetContent(0, 0, 0x4e16, nil, tcell.StyleDefault)
+			tty.TakeWrites()
+			scr.Show()
+			if out := string(joinBlocks(tty.TakeWrites())); len(out) > 0 && !strings.Contains(out, "\xe4\xb8\x96") {
+				s = "+lg"
+			}
+			scr.Fini()
+		}
+	}
+	lockGuardVariant = &s
+	return s
+}
+
+// splitLockGuard strips the variant suffix from an entry token; stale = the line was recorded on a tree of the other
+// variant (a replay): the oracle still runs, the model comparison is skipped.
+func splitLockGuard(tok string) (name string, stale bool) {
+	name, flag := tok, ""
+	if i := strings.Index(tok, "+lg"); i >= 0 {
+		name, flag = tok[:i]+tok[i+3:], "+lg"
+	}
+	return name, flag != lockGuardSuffix()
+}
+
 func ecmaEntries() []string {
 	var out []string
 	seen := map[*terminfo.Terminfo]bool{}
@@ -315,6 +356,7 @@ func execDraw(line string) (res h.Result) {
 		return h.Result{Obs: "bad-line"}
 	}
 	name, tc, w, hh := f[0], f[1] == "1", h.Atoi(f[2]), h.Atoi(f[3])
+	name, staleVariant := splitLockGuard(name)
 	ops := h.SplitTrim(f[4], ";")
 	charset := "UTF-8"
 	if i := strings.Index(name, "@"); i >= 0 {
@@ -431,6 +473,7 @@ func execDraw(line string) (res h.Result) {
 	epoch := 0 // bumped by anything that legitimately repaints or destroys the whole display
 	lockSnap := map[[2]int]emuCell{}
 	lockEpoch := map[[2]int]int{}
+	lockLead := map[[2]int]bool{} // when it was locked the cell showed the left half of a wide glyph
 	lastDraw := false
 	tags := map[string]bool{}
 	afterDraw := func(full bool) {
@@ -454,7 +497,7 @@ func execDraw(line string) (res h.Result) {
 	}
 	for i, op := range ops {
 		t := strings.Fields(op)
-		if t[0] == "FIT" || t[0] == "FIT0" {
+		if len(t) > 0 && (t[0] == "FIT" || t[0] == "FIT0") {
 			continue // pseudo-ops for the Lean driver (colour-fitting values); they must not reset lastDraw
 		}
 		lastDraw = false
@@ -520,11 +563,17 @@ func execDraw(line string) (res h.Result) {
 							if !sh.locked[[2]int{k, j}] && lkv["size"] == fmt.Sprintf("%dx%d", sh.w, sh.h) && len(lcells) == sh.w*sh.h {
 								lockSnap[[2]int{k, j}] = lcells[j*sh.w+k]
 								lockEpoch[[2]int{k, j}] = epoch
+								lockLead[[2]int{k, j}] = k+1 < sh.w && strings.Contains(lcells[j*sh.w+k+1].flags, "c")
 							}
 							sh.locked[[2]int{k, j}] = true
 						} else {
 							delete(sh.locked, [2]int{k, j})
 							sh.changed[[2]int{k, j}] = true
+							// an unlocked cell that is the right half of a wide rune is repainted through that rune
+							if k > 0 && widthOf(get(k-1, j).main) > 1 {
+								sh.changed[[2]int{k - 1, j}] = true
+								tags["unlock-right-of-wide"] = true
+							}
 						}
 					}
 				}
@@ -641,6 +690,13 @@ func execDraw(line string) (res h.Result) {
 						pen = expectPen(st, ti, der, truecolor)
 					}
 					var want []string
+					// a wide rune whose right half is a locked cell cannot be shown without writing to the locked cell:
+					// it is shown as a blank (the policy of the last column) — or still as the glyph painted before
+					// the cell was locked
+					cut := wide && sh.locked[[2]int{x + 1, y}]
+					if cut {
+						tags["wide-left-of-locked"] = true
+					}
 					if wd > 1 && !wide {
 						want = []string{"32"} // wide rune in the last column: a blank
 					} else {
@@ -656,6 +712,10 @@ func execDraw(line string) (res h.Result) {
 					got := ec.runes
 					if got == "-" {
 						got = "32"
+					}
+					if cut && got == "32" && !strings.Contains(ec.flags, "g") && penMatch(pen, ec.pen) {
+						tags["wide-left-of-locked-blank"] = true
+						continue
 					}
 					if strings.Contains(ec.flags, "g") || got != strings.Join(want, ",") || !penMatch(pen, ec.pen) {
 						addF("display-mismatch", "cell (%d,%d): terminal shows %s/%s/%s, application set rune %d comb %v style %s (want %s/%s)",
@@ -691,6 +751,19 @@ func execDraw(line string) (res h.Result) {
 					continue
 				}
 				ec := cells[k[1]*sh.w+k[0]]
+				if strings.Contains(snap.flags, "c") && !strings.Contains(ec.flags, "c") && ec.runes == "-" {
+					// when it was locked the cell was the right half of its neighbour's wide glyph; the neighbour has been
+					// repainted with something narrower and the terminal itself erased the orphaned half: no payload
+					// was written to the locked cell
+					tags["locked-orphan-half-erased"] = true
+					continue
+				}
+				if lockLead[k] && !sh.locked[[2]int{k[0] + 1, k[1]}] && ec.runes == "-" && !strings.Contains(ec.flags, "c") {
+					// the mirror image: the locked cell showed the left half of a wide glyph whose right half lies in an
+					// unlocked cell; that cell has been painted (as it must be) and the terminal erased the orphaned half
+					tags["locked-orphan-half-erased"] = true
+					continue
+				}
 				if ec.runes != snap.runes || ec.pen != snap.pen || strings.Contains(ec.flags, "c") != strings.Contains(snap.flags, "c") {
 					addF("locked-cell-overpainted", "cell (%d,%d) is locked and showed %s/%s/%s when it was locked; the terminal now shows %s/%s/%s (block %d)",
 						k[0], k[1], snap.runes, snap.pen, snap.flags, ec.runes, ec.pen, ec.flags, ec.stamp)
@@ -720,6 +793,9 @@ func execDraw(line string) (res h.Result) {
 	res.Obs = strings.Join(obs, " ")
 	if !utf8loc {
 		res.Obs = "SKIP 8-bit locale: judged by the oracle only (the byte-level model is instantiated for UTF-8)"
+	}
+	if staleVariant {
+		res.Obs = "SKIP line recorded on a tree of the other locked-neighbour variant: judged by the oracle only"
 	}
 	for t := range tags {
 		res.Tags = append(res.Tags, t)
@@ -845,6 +921,7 @@ func genDraw(g *h.Gen) {
 		var ops []string
 		nops := r.Range(4, 36)
 		cols := map[uint64]bool{}
+		lastLock := ""
 		drawStyle := func(r *h.Rand) StyleF {
 			f := drawStyle(r)
 			cols[f.Fg], cols[f.Bg], cols[f.UlColor] = true, true, true
@@ -879,8 +956,33 @@ func genDraw(g *h.Gen) {
 				ops = append(ops, fmt.Sprintf("K %d %d", r.Intn(7), h.Pick(r, genColors)))
 			case k < 68:
 				lk := r.Intn(2)
-				ops = append(ops, fmt.Sprintf("L %d %d %d %d %d", x, y, r.Range(0, 3), r.Range(0, 2), lk))
-				if lk == 1 && r.Chance(40) { // a wide rune right beside the locked region
+				if lk == 0 && lastLock != "" && r.Chance(50) { // unlock exactly what was locked last
+					ops = append(ops, lastLock+" 0")
+					lastLock = ""
+					continue
+				}
+				lw, lh := r.Range(0, 3), r.Range(0, 2)
+				beside := lk == 1 && r.Chance(40)
+				if beside && r.Chance(70) { // … and the region is not empty, inside the screen, not in column 0
+					if lw == 0 {
+						lw = 1
+					}
+					if lh == 0 {
+						lh = 1
+					}
+					if x < 1 {
+						x = 1
+					}
+					if y < 0 {
+						y = 0
+					}
+				}
+				reg := fmt.Sprintf("L %d %d %d %d", x, y, lw, lh)
+				ops = append(ops, fmt.Sprintf("%s %d", reg, lk))
+				if lk == 1 {
+					lastLock = reg
+				}
+				if beside { // a wide rune right beside the locked region
 					ops = append(ops, fmt.Sprintf("S %d %d %d - %s", x-1, y, h.Pick(r, []int{0x4e16, 0x754c, 0xff21}), drawStyle(r)))
 				}
 			case k < 86:
@@ -903,7 +1005,7 @@ func genDraw(g *h.Gen) {
 		}
 		ops = append(ops, fitOps(name, cols)...)
 		w0, h0 := r.Range(2, 7), r.Range(1, 4)
-		g.Emit("draw %s %d %d %d %s", name, r.Intn(2), w0, h0, strings.Join(ops, "; "))
+		g.Emit("draw %s%s %d %d %d %s", name, lockGuardSuffix(), r.Intn(2), w0, h0, strings.Join(ops, "; "))
 	}
 }
 
@@ -942,7 +1044,7 @@ func genDrawCP(g *h.Gen) {
 				ops = append(ops, fmt.Sprintf("S %d %d %d - 0,0,0,0,0,-,-", x, y, cps[i+k]))
 			}
 			ops = append(ops, "W")
-			g.Emit("draw %s 0 8 4 %s", tgt, strings.Join(ops, "; "))
+			g.Emit("draw %s 0 8 4 %s", tgt+lockGuardSuffix(), strings.Join(ops, "; "))
 		}
 	}
 	// combining lists in UTF-8 and in 8-bit locales, including charmaps that answer an unencodable rune with the SUB
